@@ -217,8 +217,8 @@ def run(tier: str, seed: int, t0: float) -> int:
     rng = random.Random(seed)
     # ---- M: oracle self-check
     alpha_js = schemas.export({"nodes": c06.ALPHA_SPEC}, "alpha")
-    path = tlc.write_input({"schema": alpha_js, "atoms": ["a", "c", "g"], "ranges": [[2, 2], [0, 2]], "maxSize": 3 if not thorough else 4,
-                            "fillLen": 3}, "mcfill")
+    path = tlc.write_input({"schema": alpha_js, "atoms": ["a", "c", "g"], "ranges": [[2, 2], [0, 2]], "maxSize": 3,
+                            "fillLen": 3 if not thorough else 5}, "mcfill")     # (size 4 does not finish within an hour)
     r = tlc.run_tlc("MC_Fill", "MC_Fill.cfg", env={"PMV_INPUT": path}, timeout=3000)
     if not r.ok:
         raise core.MachineryError("MC_Fill: " + "; ".join(r.errors[:3]) + r.stdout[-1500:])
